@@ -126,7 +126,7 @@ PROPS = {
                        'are re-evaluated on the release world.'
                        ' Round 5: V5 covers abs/pow/neg at isize::MIN; F4 and G2 also run here.'
                        ' Round 6: V2 also rejects a debug-only cap on the step count of a data-dependent loop; R1 (complete tracing: the stress and the paced collector expose an untraced edge differently) also runs here.'
-                       ' Round 7: V2 also rejects a debug_assert! whose expression mutates state; V6 a difference of two program-chosen lengths is taken only after comparing them; P10 also runs here. Round 8: V1 judges trace-only blocks by recursive purity (read-only std iterators, pure workspace helpers); B5, P11 and R2 also run here.',
+                       ' Round 7: V2 also rejects a debug_assert! whose expression mutates state; V6 a difference of two program-chosen lengths is taken only after comparing them; P10 also runs here. Round 8: V1 judges trace-only blocks by recursive purity (read-only std iterators, pure workspace helpers); B5, P11 and R2 also run here; V7 (no comparison or branch depends on a reading of the clock).',
         'assumptions': COMMON_ASSUME + ['C01 (pacing arms are equivalent only if collection is safe at every allocation)',
                                         'C04/C02 (check-only arms differ only when the checked condition holds)'],
         'not_decided': ['observable equality of outputs (needs both binaries to run)'],
